@@ -320,7 +320,9 @@ def with_timeout(fn, secs=60):
     def h(*a):
         raise TransformTimeout()
     old = signal.signal(signal.SIGALRM, h)
-    signal.setitimer(signal.ITIMER_REAL, secs)
+    # repeating: an exception raised by the handler inside a destructor (`__del__`) is swallowed by CPython, so a one-shot
+    # alarm can be lost and a non-terminating evaluation would run on; the alarm fires again every 0.2 s until it lands
+    signal.setitimer(signal.ITIMER_REAL, secs, 0.2)
     try:
         return fn()
     finally:
